@@ -23,6 +23,31 @@ var (
 	alpha16 = []byte{0x00, 0x01, 0x02, 0x03, 0x04, 0x05, 0x08, 0x10, 0x20, 0x3A, 0x41, 0x7F, 0x80, 0xC0, 0xFE, 0xFF}
 )
 
+// wrapValues: for every element size s in 2..64 the smallest counts v whose product v*s wraps modulo 2^16
+// (and modulo 2^8) to a value below s, and their neighbours: a length check done on a wrapped product passes.
+var wrapValues = func() []uint16 {
+	seen := map[uint16]bool{}
+	var out []uint16
+	add := func(v int) {
+		if v >= 0 && v < 65536 && !seen[uint16(v)] {
+			seen[uint16(v)] = true
+			out = append(out, uint16(v))
+		}
+	}
+	for s := 2; s <= 64; s++ {
+		for j := 1; j < s; j++ {
+			v := (j*65536 + s - 1) / s
+			add(v - 1)
+			add(v)
+			add(v + 1)
+			w := (j*256 + s - 1) / s
+			add(w)
+			add(w + 1)
+		}
+	}
+	return out
+}()
+
 var hseed = maphash.MakeSeed()
 
 type caseFn func(in []byte, gen string) bool // return false to stop
@@ -60,6 +85,89 @@ func forEachCase(ep *EP, thorough bool, fn caseFn) int {
 	// 0 deviations: the valid encodings themselves
 	for _, s := range ep.Seeds {
 		e.emit(s, "seed")
+	}
+	for _, s := range ep.PlainSeeds {
+		e.emit(s, "counted-seed")
+	}
+	// every LENGTH 0..N (quick 1100, thorough 4200), content irrelevant: four fills, and the first seed continued by a
+	// fill — a fixed scratch buffer, a limit counted in the wrong unit or a length class (256, 512, 1024, 4096)
+	// is crossed whatever the bytes are
+	if len(ep.Alpha) == 0 {
+		N := 1100
+		if thorough {
+			N = 4200
+		}
+		big := make([]byte, 0, N+8)
+		for _, f := range []byte{0x00, 0x01, 0x41, 0xFF} {
+			big = big[:0]
+			for n := 0; n <= N && !e.stop; n++ {
+				e.emit(big, "length-sweep")
+				big = append(big, f)
+			}
+		}
+		if len(ep.Seeds) > 0 && len(ep.Seeds[0]) < N {
+			big = append(big[:0], ep.Seeds[0]...)
+			for n := len(big); n <= N && !e.stop; n++ {
+				e.emit(big, "length-sweep-after-seed")
+				big = append(big, 0x41)
+			}
+		}
+	}
+	// SMB parameter words: values at which count*size wraps a 16-bit (or 8-bit) product to something small
+	// (quick), every 16-bit value (thorough), in both byte orders
+	if ep.ParamWords != nil {
+		for si, sd := range ep.Seeds {
+			if si >= 2 || e.stop {
+				break
+			}
+			for _, off := range ep.ParamWords(sd) {
+				if off+2 > len(sd) {
+					continue
+				}
+				try := func(v uint16) {
+					buf = append(buf[:0], sd...)
+					buf[off], buf[off+1] = byte(v), byte(v>>8)
+					e.emit(buf, "param-word")
+					buf[off], buf[off+1] = byte(v>>8), byte(v)
+					e.emit(buf, "param-word")
+				}
+				if thorough {
+					for v := 0; v < 65536 && !e.stop; v++ {
+						try(uint16(v))
+					}
+				} else {
+					for _, v := range wrapValues {
+						try(v)
+					}
+				}
+				// the same with the data block resized so that a wrapped product count*size passes a length check
+				// although not even one element fits: for every element size s and wrap j, data of s-1 and of
+				// (count*s mod 2^16) bytes
+				dOff := 33 + 2*int(sd[32])
+				if dOff+2 > len(sd) {
+					continue
+				}
+				for sz := 2; sz <= 64 && !e.stop; sz++ {
+					for j := 1; j < sz; j++ {
+						v := (j*65536 + sz - 1) / sz
+						prod := v*sz - j*65536
+						for _, L := range []int{sz - 1, prod} {
+							buf = append(buf[:0], sd[:dOff]...)
+							buf[off], buf[off+1] = byte(v), byte(v>>8)
+							buf = append(buf, byte(L), byte(L>>8))
+							for i := 0; i < L; i++ {
+								if dOff+2+i < len(sd) {
+									buf = append(buf, sd[dOff+2+i])
+								} else {
+									buf = append(buf, byte(i+1))
+								}
+							}
+							e.emit(buf, "param-word-wrap+data-length")
+						}
+					}
+				}
+			}
+		}
 	}
 	// 1 and 2 deviations around every seed
 	for _, s := range ep.Seeds {
